@@ -1489,6 +1489,21 @@ impl VisitMut for Pass {
                 }
                 self.rw.err = Some(format!("unsupported unsafe block at line {}", line));
             }
+            // X18: `&E[..]` (the whole of a Vec as a slice) is `E.as_slice()`; any other range index has no specification in
+            // vstd -- Verus would accept it with an unconstrained result, and a proof that then fails would be a false alarm --
+            // so it is an unsupported construct (the function is degraded, never judged)
+            Expr::Reference(r) if r.mutability.is_none() && matches!(&*r.expr, Expr::Index(ix) if matches!(&*ix.index, Expr::Range(rg) if rg.start.is_none() && rg.end.is_none())) => {
+                if let Expr::Index(ix) = &*r.expr {
+                    let base = (*ix.expr).clone();
+                    *e = parse_quote!(#base.as_slice());
+                    self.rw.note("X18", line);
+                    self.visit_expr_mut(e);
+                    return;
+                }
+            }
+            Expr::Index(ix) if matches!(&*ix.index, Expr::Range(_)) => {
+                self.rw.err = Some(format!("unsupported range index at line {}", line));
+            }
             // X6 on expression macros
             Expr::Macro(m) => {
                 if macro_name(&m.mac).starts_with("__vp_") {
